@@ -404,7 +404,7 @@ func callEncoder(e encoder, x, px any, o *ojg.Options) (raw string, t tree, r, m
 	oc := *o
 	raw, tp, err := e.fn(x, px, &oc)
 	if err == errUnparsed {
-		return raw, leaf("none", ""), "unparsed", ""
+		return raw, leaf("none", ""), "fail", "sen output does not parse back: " + trunc(raw)
 	}
 	if err != nil {
 		return raw, leaf("none", ""), "fail", trunc(err.Error())
